@@ -50,6 +50,7 @@ type Env struct {
 	sharedSpecsOrig []*BucketSpec
 	abort           bool
 	rootClosed      bool
+	snaps           map[int]*SnapCopy
 	main            *taskEnv
 	tasks           []*taskEnv
 	ext             interface{} // stack-specific state (m3, prom, transport)
@@ -127,7 +128,7 @@ func RunOne(t *testing.T, prop *Property, prog *Program, ch *simrt.Chooser, trac
 	}()
 	synctest.Test(t, func(t *testing.T) {
 		sim := simrt.New(simConfig(&prog.Cfg, trace), ch)
-		env = &Env{Sim: sim, Prog: prog, Log: &Log{}, Model: NewModel(&prog.Cfg), Prop: prop}
+		env = &Env{Sim: sim, Prog: prog, Log: &Log{}, Model: NewModel(&prog.Cfg), Prop: prop, snaps: map[int]*SnapCopy{}}
 		simnet.Net = &simnet.Network{}
 		env.Net = simnet.Net
 		saveNoop := tally.NoopScope
